@@ -87,14 +87,23 @@ def has_x(j) -> bool:
 _ADDR = re.compile(r" at 0x[0-9a-f]+>")
 
 
+def _text_canon(t: str) -> str:
+    """texts produced by `str()` of an object with an address or of a set (hash order): addresses masked, and for set texts
+    the characters sorted (the same elements in another order give the same form)"""
+    t = _ADDR.sub(" at 0x>", t)
+    if "set(" in t:
+        return "".join(sorted(t))
+    return t
+
+
 def canon(j):
     """order-insensitive form: set elements sorted, data-class instance fields sorted by key; object addresses masked"""
     if isinstance(j, dict):
-        if "s" in j and " at 0x" in j["s"]:
-            return dict(j, s=_ADDR.sub(" at 0x>", j["s"]))
-        if "b" in j and "2061742030783" in j["b"]:
+        if "s" in j and (" at 0x" in j["s"] or "set(" in j["s"]):
+            return dict(j, s=_text_canon(j["s"]))
+        if "b" in j and ("206174203078" in j["b"] or "73657428" in j["b"]):      # " at 0x" / "set(" inside the bytes
             try:
-                return dict(j, b=_ADDR.sub(" at 0x>", bytes.fromhex(j["b"]).decode("latin-1")).encode("latin-1").hex())
+                return dict(j, b=_text_canon(bytes.fromhex(j["b"]).decode("latin-1")).encode("latin-1").hex())
             except Exception:
                 return j
         if "q" in j:
@@ -1905,7 +1914,7 @@ class C01(Check):
                     _walk_json_values(case["enums"][k]["members"][i][1], vals)      # `_attempt_from` unwraps a member to its value
                 except Exception:
                     pass
-            texts = [x for x in vals if isinstance(x, str)]
+            texts = [x for x in vals if isinstance(x, str)] + [str(int(x)) for x in vals if isinstance(x, (bool, int))]
             tokens = [t for x in texts for t in re.split(r"[\s,;:=&\[\](){}\"']+", x)] + texts     # texts are split / parsed into items
             if base["t"] == "int" and any(x.strip().lower() in c12.TRUE_WORDS + c12.FALSE_WORDS for x in tokens):
                 return "subclass-result-plain"            # to_integer: the literals 0 / 1 for the boolean words
